@@ -19,7 +19,7 @@ Q = 11 << 16            # 0.6875 s (11/16 s: cheap for the solver; >= 62 ms away
 BASE = 1 << 40
 TTLS = (0, 1, 2, 3, 4, 1000)
 CACHE_RS = 'crates/dns-resolver/src/cache.rs'
-DATA = [('A', 1, 0), ('A', 1, 1), ('TXT', 16, 0)]     # (variant, type number, value)
+DATA = [('A', 1, 0), ('A', 1, 1), ('TXT', 16, 0), ('A', 1, 2)]     # (variant, type number, value)
 NAMES = [[[0x61]], [[0x62]], [[0x63]]]                 # a. b. c.
 
 
@@ -38,7 +38,7 @@ class Ghost:
 
 
 class CacheHistory(Harness):
-    k = 3; nnames = 2; qtypes = (1, 16, 255); ops_at = None; maxgap = 5; ttls = TTLS; desired = None; check_prune = False; check_ttl = True; ops = ('ins', 'get', 'prune')
+    k = 3; nnames = 2; qtypes = (1, 16, 255); datas = (0, 1, 2); ops_at = None; maxgap = 5; ttls = TTLS; desired = None; check_prune = False; check_ttl = True; ops = ('ins', 'get', 'prune')
 
     def plan(self, ex):
         """symbolic choice of the k operations -> list of dicts (concrete structure, symbolic ttl/gaps)"""
@@ -50,7 +50,7 @@ class CacheHistory(Harness):
             if not isinstance(g.v, int): ex.assume(z3.ULE(g.v, self.maxgap))
             d = {'op': op, 'gap': g}
             if op == 'ins':
-                d['name'] = c04.choose(ex, f'name{i}', self.nnames); d['data'] = c04.choose(ex, f'data{i}', len(DATA))
+                d['name'] = c04.choose(ex, f'name{i}', self.nnames); d['data'] = self.datas[c04.choose(ex, f'data{i}', len(self.datas))]
                 d['ttl'] = c04.one_of(ex, f'ttl{i}', 'u32', self.ttls)
             elif op == 'get':
                 d['name'] = c04.choose(ex, f'name{i}', self.nnames); d['q'] = self.qtypes[c04.choose(ex, f'q{i}', len(self.qtypes))]
@@ -273,7 +273,7 @@ class CacheHistory(Harness):
                         L.append('let mut seen = rrs.clone(); seen.sort(); seen.dedup(); assert!(seen.len() == rrs.len(), "VERIF-VIOLATED duplicate record returned");')
                     elif base == 'get-ttl':
                         for (n, j), e in entries.items():
-                            if n == p['name']: L.append('for rr in &rrs { if rr.rtype_with_data == %s { assert!(u64::from(rr.ttl) * 1000 <= %d, "VERIF-VIOLATED ttl {} exceeds remaining", rr.ttl); } }' % (rd(j), max(0, e - t)))
+                            if n == p['name']: L.append('for rr in &rrs { if rr.rtype_with_data == (%s) { assert!(u64::from(rr.ttl) * 1000 <= %d, "VERIF-VIOLATED ttl {} exceeds remaining", rr.ttl); } }' % (rd(j), max(0, e - t)))
                     elif base == 'get-missing':
                         j = int(parts[2])
                         L.append('assert!(rrs.iter().any(|rr| rr.rtype_with_data == %s), "VERIF-VIOLATED live record not returned: {:?}", rrs);' % rd(j))
@@ -293,7 +293,7 @@ class CacheHistory(Harness):
         path = save_replay(self.pid, self.name, src, {'tag': tag, 'detail': v.get('detail'), 'model': m})
         broken = [p for p, (okk, txt) in res.items() if okk is None]
         if broken: return None, path, 'replay build/run problem: ' + res[broken[0]][1][-800:]
-        failed = [p for p, (okk, txt) in res.items() if okk is False and 'VERIF-VIOLATED' in txt]
+        failed = [p for p, (okk, txt) in res.items() if okk is False and ('VERIF-VIOLATED' in txt or 'panicked at' in txt)]
         return (len(failed) > 0), path, '; '.join(f'{p}: {"FAILED" if okk is False else "passed"}' for p, (okk, _) in res.items())
 
 
